@@ -204,7 +204,10 @@ def _gen_fields(step):
           end-tag identifier `ident`, which must be compared with `context.element` instead;
       (2) in every arm `"TAG" => { .. }` of the `match tag` the parsed `newitem` is stored exactly once, into an accumulator of (1),
           by `acc = Some(newitem)` or `acc.push(newitem)`, and every accumulator other than `a2lcomment` is the target of an arm;
-      (3) every field of the `Self { .. }` literal other than `__block_info` is read as `self.<field>` in `stringify` of the same type.
+      (3) every field of the `Self { .. }` literal other than `__block_info` is read as `self.<field>` in `stringify` of the same type;
+      (4) the k-th positional value of `parse` is written by `stringify` together with the k-th layout record (`item_location.k`), and the
+          literal lists the layout records in parse order;
+      (5) a sub-element parsed in arm `"TAG"` is written exactly once, under `tag: "TAG"`, from the field it was stored in.
     A deviation is reported as UNDECIDED ("frame lost"), never as a violation; the bounded drivers of C01 / C02 supply the input."""
     from . import rustlex
     res = {"failures": [], "undecided": [], "bounded": [], "obligations": 0, "discharged": 0, "samples": [],
@@ -237,7 +240,8 @@ def _gen_fields(step):
             elif ch.kind == "fn" and ch.name == "stringify":
                 strs[ty] = ch
     bad = []
-    nfn = nlet = narm = nfield = 0
+    nfn = nlet = narm = nfield = npos = ntag = 0
+    import re
 
     def top_level_lets(ct):
         """(names, index) of the `let` statements directly in the fn body (brace depth 1)"""
@@ -307,6 +311,7 @@ def _gen_fields(step):
                     accs.add(nme)
         # (2) the arms of `match tag`
         targets = set()
+        arm_of = {}
         for i, t in enumerate(ct):
             if t.kind == "str" and i + 2 < len(ct) and ct[i + 1].text == "=" and ct[i + 2].text == ">" and ct[i + 3].text == "{":
                 e = rustlex.match_close(ct, i + 3)
@@ -326,6 +331,7 @@ def _gen_fields(step):
                     bad.append("arm %s of %s stores `newitem` %d time(s) (%s)" % (t.text, where, len(stores), ", ".join(stores)))
                 else:
                     targets.add(stores[0])
+                    arm_of[t.text] = stores[0]
         for a in sorted(accs - targets - {"a2lcomment"}):
             # accumulators of non-tagged parts (sequences `while !done`) are filled outside `match tag`: they must be pushed to somewhere
             if (a + ".push(") not in body.replace(" ", "") and (a + "=Some(") not in body.replace(" ", ""):
@@ -349,13 +355,50 @@ def _gen_fields(step):
             bad.append("no stringify for " + ty)
             continue
         sbody = sf.text[st.body_open:st.end].replace(" ", "").replace("\n", "")
+        # (4) positional order: the k-th positional value of parse is written with the k-th layout record
+        positional = [(names[0], names[1]) for names, _i, _m in lets
+                      if len(names) == 2 and names[0].startswith("__") and names[0].endswith("_location")]
+        for k, (locn, valn) in enumerate(positional):
+            npos += 1
+            hits = [m.start() for m in re.finditer(r"item_location\.%d(?!\d)" % k, sbody)]
+            if not hits:
+                bad.append("layout record %d (`%s`) of %s is not used by its stringify" % (k, valn, ty))
+                continue
+            owners = set()
+            for h in hits:
+                prev = [m.group(1) for m in re.finditer(r"self\.([A-Za-z_][A-Za-z_0-9]*)", sbody[:h]) if m.group(1) != "__block_info"]
+                owners.add(prev[-1] if prev else None)
+            if owners != {valn}:
+                bad.append("layout record %d of %s belongs to `%s` in parse but is written with %s in stringify" % (k, ty, valn, sorted(map(str, owners))))
+        # the literal lists the layout records in the order of parsing
+        il = None
+        for i2 in range(lit[0], lit[1] - 2):
+            if ct[i2].text == "item_location" and ct[i2 + 1].text == ":":
+                if ct[i2 + 2].text == "(":
+                    e2 = rustlex.match_close(ct, i2 + 2)
+                    il = [x.text for x in ct[i2 + 3:e2] if x.kind == "ident"]
+                else:
+                    il = [ct[i2 + 2].text] if ct[i2 + 2].kind == "ident" else []
+        if positional and il is not None and il[:len(positional)] != [a for a, _b in positional]:
+            bad.append("item_location of %s lists %s, parse order is %s" % (where, il[:len(positional)], [a for a, _b in positional]))
+        # (5) tags: a sub-element parsed under "TAG" is written under "TAG"
+        for tagtxt, acc in sorted(arm_of.items()):
+            fld = acc[len("__tmp_required_"):] if acc.startswith("__tmp_required_") else acc
+            ms = [m.start() for m in re.finditer(r"tag:" + re.escape(tagtxt) + r",", sbody)]
+            ntag += 1
+            if len(ms) != 1:
+                bad.append("tag %s of %s is written %d times by stringify" % (tagtxt, ty, len(ms)))
+                continue
+            prev = [m.group(1) for m in re.finditer(r"self\.([A-Za-z_][A-Za-z_0-9]*)", sbody[:ms[0]]) if m.group(1) != "__block_info"]
+            if not prev or prev[-1] != fld:
+                bad.append("tag %s of %s is parsed into `%s` but written from `%s`" % (tagtxt, ty, fld, prev[-1] if prev else None))
         for f in fields:
             if f == "__block_info":
                 continue
             nfield += 1
             if ("self." + f) not in sbody:
                 bad.append("field `%s` of %s is not read by its stringify" % (f, ty))
-    res["samples"].append("gen-fields: %d generated parse functions, %d top-level bindings, %d sub-element arms, %d fields checked against stringify" % (nfn, nlet, narm, nfield))
+    res["samples"].append("gen-fields: %d generated parse functions, %d top-level bindings, %d sub-element arms, %d fields, %d positional layout records and %d tags checked against stringify" % (nfn, nlet, narm, nfield, npos, ntag))
     if nfn < 100:
         res["undecided"].append("gen-fields: only %d generated parse functions found (layout of specification.rs changed?)" % nfn)
     elif bad:
